@@ -329,6 +329,47 @@ theorem abs_eq_absS (xs : List (Option Rat)) : vabs xs = absS xs ∧ abs xs = ab
 
 /-! ## extreme and zero lags -/
 
+/-- **lag 0 is the identity** for `shift` / `vshift`, whatever the fill value -/
+theorem shift_zero {α : Type} (v : α) (xs : List α) : shift 0 v xs = xs := by
+  cases xs with
+  | nil => simp [shift]
+  | cons x xs => simp [shift]
+
+theorem vshift_zero {β : Type} (value : Option (Option β)) (xs : List (Option β)) :
+    vshift 0 value xs = xs := shift_zero _ xs
+
+/-- **`abs` / `vabs` are idempotent** -/
+theorem abs_idem (xs : List (Option Rat)) : vabs (vabs xs) = vabs xs ∧ abs (abs xs) = abs xs := by
+  have h : ∀ q : Rat, rabs (rabs q) = rabs q := by
+    intro q
+    rcases rabs_cases (rabs q) with ⟨_, e⟩ | ⟨hlt, _⟩
+    · exact e
+    · exact absurd (rabs_nonneg q) (Rat.not_le.mpr hlt)
+  constructor
+  · simp only [vabs, List.map_map]
+    apply List.map_congr_left
+    intro v _
+    cases v <;> simp [h]
+  · simp only [abs, List.map_map]
+    apply List.map_congr_left
+    intro v _
+    cases v <;> simp [h]
+
+/-- **shifting there and back keeps the interior**: after a lag `n ≥ 0` and the opposite lag, every
+position `i < len - n` holds its original element (the last `n` places hold the fill value) -/
+theorem shift_back {α : Type} (n : Nat) (v w : α) (xs : List α) (i : Nat) (hi : i + n < xs.length) :
+    (shift (-(n : Int)) w (shift (n : Int) v xs))[i]? = some xs[i] := by
+  have hl := shift_len (n : Int) v xs
+  rw [shift_get _ w _ i (by omega), dif_pos (by omega)]
+  have e : (((i : Int) - -(n : Int))).toNat = i + n := by omega
+  have h2 := shift_moves (n : Int) v xs i (by omega) (by omega) (by omega)
+  have e2 : ((i : Int) + (n : Int)).toNat = i + n := by omega
+  rw [e2] at h2
+  simp only [e]
+  rw [List.getElem?_eq_getElem (by omega)] at h2
+  exact h2
+
+
 /-- A lag at least as large as the length (in particular `i32::MIN` / `i32::MAX` on any series
 shorter than 2^31) yields `len` copies of the fill value. -/
 theorem shift_all_fill (n : Int) (v : α) (xs : List α) (h : xs.length ≤ n.natAbs) :
